@@ -256,7 +256,7 @@ fn gen_size(r: &mut Rng, cap_left: usize, m: usize, allow_huge: bool) -> usize {
                 1 => ISIZE_MAX / 2 + k,
                 2 => 1usize << r.range(29, 62),
                 3 => ISIZE_MAX - (ISIZE_MAX % 4096) - k * 4096,
-                4 => (1usize << 28) + k,
+                4 => (1usize << 25) + k,
                 _ => ISIZE_MAX,
             }
         }
@@ -343,10 +343,11 @@ pub fn gen_op(r: &mut Rng, prof: Profile, m: usize, uniform: Option<usize>, c: &
                 let ty = uniform_ty(a, r);
                 Op::Val { ty, f: r.chance(1, 3), with: r.chance(1, 2) }
             }
-            2 => {
-                let ty = uniform_ty(a, r);
+            2 if a >= 8 => {
+                let ty = if a == 8 { 10 } else { 12 };
                 Op::Atw { ty, ok: r.chance(1, 2), inner: vec![], f: r.chance(1, 2) }
             }
+            2 => Op::Alloc { sz, al: a, f: r.chance(1, 3) },
             3 => {
                 let ety = uniform_ety(a);
                 let n = r.range(0, 40) as usize;
@@ -534,7 +535,7 @@ fn gen_count(r: &mut Rng, ety: usize, cap_left: usize, overflowy: bool) -> usize
         _ => {
             let k = r.below(5) as usize;
             match r.below(6) {
-                0 => usize::MAX / esz + k,
+                0 => (usize::MAX / esz).saturating_add(k),
                 1 => (usize::MAX / esz).saturating_sub(k),
                 2 => ISIZE_MAX / esz + k,
                 3 => (ISIZE_MAX / esz).saturating_sub(k),
@@ -807,7 +808,7 @@ impl<const M: usize> Exec<M> {
                     if addr != 0 {
                         if let Some(l) = lim_before {
                             let ov = self.footer_overhead.unwrap_or(48);
-                            let before: usize = self.held.iter().map(|(_, s, _)| s - ov).sum();
+                            let before: usize = self.held.iter().map(|(_, s, _)| s.saturating_sub(ov)).sum();
                             if before + (size - ov.min(size)) > l {
                                 self.fail("C07", "limit-exceeded", format!("limit={} held-usable-before={} new-chunk={}", l, before, size));
                             }
@@ -1255,11 +1256,16 @@ impl<const M: usize> Exec<M> {
                             self.fail("C19", "impossible-size-accepted", format!("esz={} n={}", esz, n));
                             (Res::Ok(p), evs)
                         } else {
-                            let expected: Vec<u8> = match *kind {
-                                0 | 1 | 3 | 7 => pat.clone(),
-                                2 => pat.iter().map(|b| b'a' + b % 26).collect(),
-                                4 | 5 => (0..*n).flat_map(|_| pat[..esz].to_vec()).collect(),
-                                _ => vec![0u8; tot],
+                            let expected: Vec<u8> = if !materialise {
+                                // too big to build a reference copy: track the block for placement only
+                                unsafe { std::slice::from_raw_parts(p as *const u8, tot).to_vec() }
+                            } else {
+                                match *kind {
+                                    0 | 1 | 3 | 7 => pat.clone(),
+                                    2 => pat.iter().map(|b| b'a' + b % 26).collect(),
+                                    4 | 5 => (0..*n).flat_map(|_| pat[..esz].to_vec()).collect(),
+                                    _ => vec![0u8; tot],
+                                }
                             };
                             if *kind == 3 {
                                 let c = calls.borrow();
@@ -1589,6 +1595,7 @@ pub fn run_plan<const M: usize>(plan: &mut Plan, gen: Option<(Profile, usize)>, 
     types::DROPS.with(|d| d.borrow_mut().reserve(4096));
     ex.out.trace.push_str(&plan.header(static_addr));
     ex.out.trace.push('\n');
+    crate::begin_plan(&plan.header(static_addr));
     match gen {
         None => {
             let ops = plan.ops.clone();
